@@ -131,9 +131,10 @@ def run(facts, rep, ctx):
         rep.ok(R1, {"reader_loops": rb})
     elif len(rb) != 4:
         # e.g. the 32 absent slots produced by `resize` instead of a loop: a different shape, not a different bound
-        if set(rb) - {8, 32, 257}:
+        if set(rb) - {8, 32, 257} and len(rb) == 3 and not (set(rb) & {256}):
             rep.violation(R1, rd.name, "reader-bounds", "reader loops run to %s (specified: 257 table entries, 8 groups, 32 bits)" % rb, rw)
         else:
+            # (a single loop over 8 * 32 = 256 slots, or any other nesting: a different shape, not a different bound)
             rep.inconc(R1, "reader loop structure not recognised: constant-range loops %s" % rb)
     else:
         rep.violation(R1, rd.name, "reader-bounds", "reader loops run to %s (specified: 257 table entries, 8 groups, 32 bits, 32 absent slots)" % rb, rw)
